@@ -54,23 +54,23 @@ type s1Call struct {
 }
 
 type s1Harness struct {
-	w    *core.World
-	sc   s1Scenario
-	n    *simnet.Net
-	sub  *rig.Rig1
-	oth  *rig.Rig1
+	w         *core.World
+	sc        s1Scenario
+	n         *simnet.Net
+	sub       *rig.Rig1
+	oth       *rig.Rig1
 	subActive bool
 
-	calls   []*s1Call
-	byTok   map[string]*s1Call
-	wire    map[string][]int // token -> subject generations on which its first block was transmitted
-	genLink []*simnet.Link   // subject generation (1-based index-1) -> the link it adopted
-	lastSt  hsms.ConnState
-	nDone   int
-	stop    bool
+	calls    []*s1Call
+	byTok    map[string]*s1Call
+	wire     map[string][]int // token -> subject generations on which its first block was transmitted
+	genLink  []*simnet.Link   // subject generation (1-based index-1) -> the link it adopted
+	lastSt   hsms.ConnState
+	nDone    int
+	stop     bool
 	finished bool
-	endIdx  int
-	closing bool
+	endIdx   int
+	closing  bool
 }
 
 func genS1(t *core.Tape) s1Scenario {
